@@ -332,6 +332,34 @@ func (tr *Tr) applyContract(fr *frame, callee *ssa.Function, c *Contract, args [
 		}
 	}
 	tr.closureBindings = nil
+	// type variables of a generic assumed contract, bound from the static types at this call site
+	if len(c.Generics) > 0 {
+		saved := tr.typeVars
+		tr.typeVars = map[string]types.Type{}
+		defer func() { tr.typeVars = saved }()
+		pn := paramNames(callee, c)
+		for _, g := range c.Generics {
+			var bound types.Type
+			for i, n := range pn {
+				if n != g[1] || cc == nil {
+					continue
+				}
+				ai := i // callee.Params and the arguments of a static call both start with the receiver
+				if ai < 0 || ai >= len(cc.Args) {
+					continue
+				}
+				if mi, ok := cc.Args[ai].(*ssa.MakeInterface); ok {
+					if pt, ok := mi.X.Type().Underlying().(*types.Pointer); ok {
+						bound = pt.Elem()
+					}
+				}
+			}
+			if bound == nil {
+				vfail("%s: call of %s: cannot bind type variable %s (argument %s is not a pointer converted to an interface at the call)", fr.fn, c.Key, g[0], g[1])
+			}
+			tr.typeVars[g[0]] = bound
+		}
+	}
 	pkg := tr.G.typesPkg[c.PkgPath]
 	if pkg == nil && callee.Pkg != nil {
 		pkg = callee.Pkg.Pkg
@@ -670,6 +698,10 @@ func (tr *Tr) applyIfaceContract(fr *frame, c *Contract, cc *ssa.CallCommon, arg
 			ks = append(ks, k)
 		}
 		sort.Strings(ks)
+		if star := tg["*"]; star != nil && star.all {
+			fr.heap = fr.heap.havocAll()
+			ks = nil
+		}
 		for _, k := range ks {
 			t := tg[k]
 			if t.all {
@@ -687,6 +719,9 @@ func (tr *Tr) applyIfaceContract(fr *frame, c *Contract, cc *ssa.CallCommon, arg
 		newA := tr.declareConst("Int", "A_call")
 		tr.assume("true", app(">=", newA, oldA))
 		fr.heap.m["ALLOC"] = tr.noteEpoch(fr.heap, newA)
+	}
+	for _, hn := range c.Calls {
+		tr.callback(fr, nil, c, hn, args, names, pos, cc)
 	}
 	res := tr.freshResult(fr, rt, "ret_"+cc.Method.Name())
 	post := &specEnv{tr: tr, pkg: pkg, names: map[string]Val{}, heap: fr.heap, old: pre, oldA: preA, curA: tr.curA(fr)}
@@ -1115,8 +1150,11 @@ func (tr *Tr) callback(fr *frame, callee *ssa.Function, c *Contract, hn string, 
 	ran := tr.declareConst("Bool", "ran_"+hn)
 	names["ran_"+hn] = Val{T: ran, Ty: tBool}
 	var ci *closureInfo
-	if cc != nil && idx < len(cc.Args) {
+	if cc != nil && !cc.IsInvoke() && idx < len(cc.Args) {
 		ci = fr.closures[cc.Args[idx]]
+	}
+	if cc != nil && cc.IsInvoke() && idx >= 1 && idx-1 < len(cc.Args) {
+		ci = fr.closures[cc.Args[idx-1]] // interface method call: the receiver is not among the arguments
 	}
 	sig, ok := args[idx].Ty.Underlying().(*types.Signature)
 	if !ok {
@@ -1128,7 +1166,7 @@ func (tr *Tr) callback(fr *frame, callee *ssa.Function, c *Contract, hn string, 
 	}
 	if ci == nil {
 		// unknown function value: it may do anything to the heap it can reach
-		tr.vc.Unknown["callback "+hn+" of "+shortFuncName(callee)]++
+		tr.vc.Unknown["callback "+hn+" of "+c.Key]++
 		r := tr.havocCall(fr, nil, rt, true)
 		names["res_"+hn] = r
 		return
@@ -1149,6 +1187,29 @@ func (tr *Tr) callback(fr *frame, callee *ssa.Function, c *Contract, hn string, 
 			}
 		}
 		cargs = append(cargs, v)
+	}
+	// callarg h k <spec over cbarg>: what the (assumed) callee guarantees about the k-th argument it
+	// passes to h, in the state in which h runs
+	for _, ca := range c.CallArgs {
+		if ca.H != hn || ca.K >= len(cargs) {
+			continue
+		}
+		pkg := tr.G.typesPkg[c.PkgPath]
+		if pkg == nil && callee != nil && callee.Pkg != nil {
+			pkg = callee.Pkg.Pkg
+		}
+		nm := map[string]Val{}
+		for k, v := range names {
+			nm[k] = v
+		}
+		nm["cbarg"] = cargs[ca.K]
+		env := &specEnv{tr: tr, pkg: pkg, names: nm, heap: fr.heap, old: fr.heap, oldA: tr.curA(fr), curA: tr.curA(fr)}
+		t, err := env.evalBool(ca.Cl.S)
+		if err != nil {
+			vfail("contract of %s: callarg %s %d: %v", c.Key, hn, ca.K, err)
+		}
+		tr.assume(fr.curReach, t)
+		tr.assume(fr.curReach, tr.belowAlloc(cargs[ca.K], tr.curA(fr)))
 	}
 	tr.inCallback++
 	r := tr.staticCall(fr, ci.fn, cargs, ci.bindings, rt, pos, nil)
